@@ -266,7 +266,9 @@ impl AdvancePositions {
         let num_opens = positions.len();
 
         // Build IB: set bit at each unique position
-        let ib_num_words = text_len.div_ceil(64);
+        // A node can start at `text_len` (e.g. the implicit null after a final `key:`), so
+        // allocate one bit beyond the text, as `CompactEndPositions` does for end positions.
+        let ib_num_words = (text_len + 1).div_ceil(64);
         let mut ib_words = vec![0u64; ib_num_words];
 
         // Build advance bitmap: set bit when position changes
